@@ -354,3 +354,20 @@ _also3('C14', 'each integration loop drives every segment of the word in order (
 _also3('C15', 'a sampler that overrides the heuristic calls its own override; the direct sampler\'s measure is clamped by the whole space.')
 _also3('C16', 'success of the Newton projection is a positive comparison of a fresh residual norm with the tolerance (NaN-safe).')
 _also3('C20', 'every path of setLocalSeed that reseeds the generator resets every cached distribution.')
+
+# ---- round 6 (DESIGN.md R3.5) ---------------------------------------------------------------------------------------
+_also3('C01', 'what is attached to a registered path (goal difference, cost) is a function of the vertex whose path is registered (6 sites); the '
+              'fiber / bundle index offset of the R^N -> R^M projection; the approximate difference and the stored path of SST move together.')
+_also3('C02', 'control PDST decides continuation by control identity and registers exact only after a goal test of this call; decoupled planner '
+              'data clones every control on every call; control SST difference-with-path.')
+_also3('C03', 'a preserved solution node is an exact one; clearQuery() empties what clear() empties (except the roadmap) and restarts the input '
+              'states; GoalStates does not wrap its position eagerly; a stop request is honoured by the next evaluation; re-registration describes '
+              'the path it registers; PDST exact registrations follow a goal test of this call.')
+_also3('C04', 'the cost attached to a registered path is the cost of that path\'s vertex (R04r).')
+_also3('C05', 'in both overloads the space, not the validator, chooses the curve (first-time flag starts true).')
+_also3('C09', 'decoupling re-keys the state index with the old pointer and clones every edge control.')
+_also3('C15', 'the hyperspheroid is chosen in the retry iteration that draws from it.')
+_also3('C16', 'a rejected step of the atlas traversal ends it as a failure on every path.')
+_also3('C17', 'the snap block of findBetterGoal is interpreted over the four outcomes of its two tests.')
+_also3('C19', 'worker threads never clear the shared problem definition.')
+_also3('C20', 'variate generators of RNG helper classes share the RNG\'s engine by pointer or reference.')
